@@ -667,7 +667,7 @@ theorem callSem_SL (w : World) (hw : WorldClean w) {h h' : Head} {args args' : L
       obtain ⟨rfl, hr⟩ := hh
       simp only [callSem, callSemLz]
       split
-      · exact fnCall_SL w hw m [] (.cons hr ha) hl .nil
+      · exact fnCall_SL w hw m kwn (.cons hr ha) hl hk
       · apply SL.bind hr
         intro rv hrv
         apply SLL.bindR (evalAll_SL ha)
